@@ -122,14 +122,11 @@ mod = importlib.import_module(modname)
 if not mod.__file__.endswith(".so"):
     print("@@" + json.dumps({"fatal": "not an extension: %s" % mod.__file__})); sys.exit(3)
 ''' + OBS_SRC + r'''
-class G(object):
-    def __getitem__(self, k): return k
 res = []
 for i in range(nfun):
     f = getattr(mod, "f%d" % i)
     try:
-        r = f(G()) if f.__doc__ == "g" else f()
-        r = [obs(x) for x in r]
+        r = [obs(x) for x in f()]
     except BaseException as e:
         r = "E:" + type(e).__name__
     res.append(r)
@@ -221,9 +218,11 @@ def rpn_ops(rpn):
 
 
 # --- the "wide" family: values beyond TLC's integers; expectation from Python integers (P), a Python
-# mirror of the spec's `folded` rule and of C long arithmetic predicts where the C path overflows
+# mirror of the spec's `folded` rule and of C integer arithmetic predicts where the C path overflows
 
-I64 = (-(1 << 63), (1 << 63) - 1)
+# The C expression is written with the literals as they are (`1`, `0x7FFFFFFF`: C ints), so C evaluates
+# it in `int` unless a helper function widens an intermediate result: 32-bit range is the safe bound.
+CINT = (-(1 << 31), (1 << 31) - 1)
 
 
 class WNode(object):
@@ -255,7 +254,8 @@ class WNode(object):
         """(is_literal_node, is_c_long_typed, overflow_in_c_path) following ConstFold.tla's `folded`:
         literals below 2**31 in magnitude are C longs, unary minus of a literal is a literal, `~` of a literal
         is an operator node; a binary node is folded iff both operands are literal nodes; otherwise it is
-        evaluated at run time, in C long arithmetic if both operands are C typed."""
+        evaluated at run time, in C integer arithmetic if both operands are C typed; the third component says
+        that some run-time C operation has an exact result (or shift count) outside the 32-bit int range."""
         if self.op == "lit":
             v = self.args[0]
             return True, -(1 << 31) <= v < (1 << 31), False
@@ -264,7 +264,7 @@ class WNode(object):
             v = self.value()
             if self.op == "neg" and lit:
                 return True, c and -(1 << 31) <= v < (1 << 31), ov
-            return False, c, ov or (c and not (I64[0] <= v <= I64[1]))
+            return False, c, ov or (c and not (CINT[0] <= v <= CINT[1]))
         (l1, c1, o1), (l2, c2, o2) = self.args[0].model(), self.args[1].model()
         v = self.value()
         if l1 and l2:
@@ -273,12 +273,12 @@ class WNode(object):
         ov = o1 or o2
         if c:
             b = self.args[1].value()
-            if not (I64[0] <= v <= I64[1]):
+            if not (CINT[0] <= v <= CINT[1]):
                 ov = True
-            if self.op in ("<<", ">>") and not (0 <= b < 64):
+            if self.op in ("<<", ">>") and not (0 <= b < 32):
                 ov = True
             if self.op == "**":
-                ov = ov or not (I64[0] <= v <= I64[1])
+                ov = ov or not (CINT[0] <= v <= CINT[1])
         return False, c, ov
 
 
